@@ -108,6 +108,14 @@ CHECKS["C05"] = (
     "DESIGN.md 6/C05",
 )
 
+CHECKS["C14"] = (
+    "exploration",
+    "exhaustive enumeration of lossy configurations x every picture_bytes in a window above the minimum x overrides through the real encoder; per-slice minimality judged by an independent quantiser and exp-Golomb length arithmetic; serialised slice layout parsed independently",
+    "For every configuration the encoder either refuses (only below the minimum picture_bytes) or every slice's qindex is >= the requested minimum, fits the slice budget while qindex-1 does not, the coded coefficients equal the reference quantisation, length fields fit 8 bits, LD slice data occupies exactly picture_bytes and HQ slice data is within slice_size_scaler bytes of picture_bytes.",
+    "Unquantised coefficients come from the encoder's own transform (covered by C04/C11); 8x4 pictures.",
+    "DESIGN.md 6/C14",
+)
+
 NOT_YET = "check not built yet in this revision (planned, see DESIGN.md section 6)"
 
 
